@@ -34,6 +34,25 @@ structure Token where
   payload : Nat := 0
 deriving Inhabited, DecidableEq, Repr
 
+/-- `*p` of a nil-able pointer; the translator emits it only where a nil test dominates (otherwise the function is
+    reported untranslatable: possible nil dereference), so the `default` branch is never the one that matters -/
+def deref {α : Type} [Inhabited α] (p : Option α) : α := p.getD default
+
+/-- `jwt.NumericDate` (a `time.Time`) as Unix seconds; `IsZero` is the zero `time.Time`, year 1 -/
+structure NumericDate where
+  unix : Int := 0
+deriving Inhabited, DecidableEq, Repr
+
+def NumericDate.IsZero (d : NumericDate) : Bool := decide (d.unix = -62135596800)
+
+/-- `jwt.RegisteredClaims` as far as the relay reads it -/
+structure RegisteredClaims where
+  Audience : List String := []
+  ExpiresAt : Option NumericDate := none
+  NotBefore : Option NumericDate := none
+  IssuedAt : Option NumericDate := none
+deriving Inhabited, DecidableEq, Repr
+
 /-- what the translated code cannot compute itself -/
 structure World where
   now : Int                                   -- `GetTime()` / `time.Now().Unix()`
